@@ -472,9 +472,14 @@ def build(base):
     if cls == "ConvexPolyhedron":
         return S.ConvexPolyhedron(np.array(base["vertices"], float))
     if cls == "Polyhedron":
+        dt = base.get("face_dtype", "int")
+        if dt == "list":
+            faces = [[int(i) for i in f] for f in base["faces"]]
+        else:
+            faces = [np.array(f, dtype={"int": int, "int32": np.int32, "uint64": np.uint64,
+                                        "uint8": np.uint8}[dt]) for f in base["faces"]]
         return S.Polyhedron(
-            np.array(base["vertices"], float),
-            [np.array(f, dtype=int) for f in base["faces"]],
+            np.array(base["vertices"], float), faces,
             faces_are_convex=base.get("faces_are_convex", True),
         )
     if cls == "ConvexSpheropolyhedron":
@@ -495,6 +500,39 @@ def build(base):
     if cls == "Ellipsoid":
         return S.Ellipsoid(base["a"], base["b"], base["c"], center=list(base["center"]))
     raise KeyError(cls)
+
+
+def sibling(base):
+    """A second, different shape of the same class (a *bystander*): vertex-based shapes are
+    scaled by 1.7 and shifted, curved shapes get permuted and rescaled semi-axes.  Two live
+    objects of one class must not see each other's state (class-level caches, shared
+    default containers)."""
+    b = dict(base)
+    if "vertices" in base:
+        v = np.array(base["vertices"], float)
+        m = v.mean(axis=0)
+        ext = float(np.max(np.linalg.norm(v - m, axis=1))) or 1.0
+        b["vertices"] = ((v - m) * 1.7 + m + np.array([0.9, -1.3, 0.4]) * ext).tolist()
+        if "normal" in base and base["normal"] is not None:
+            # keep the polygon in a plane with the same normal
+            n = np.array(base["normal"], float)
+            n = n / np.linalg.norm(n)
+            sh = np.array([0.9, -1.3, 0.4]) * ext
+            b["vertices"] = ((v - m) * 1.7 + m + (sh - np.dot(sh, n) * n)).tolist()
+        if base.get("radius") is not None:
+            b["radius"] = float(base["radius"]) * 1.7 + 0.1 * ext
+        return b
+    c = np.array(base["center"], float)
+    b["center"] = (c + np.array([0.7, -0.4, 0.0 if base["cls"] in ("Circle", "Ellipse")
+                                 else 0.3]) * (base.get("radius") or base.get("a"))).tolist()
+    if "radius" in base:
+        b["radius"] = float(base["radius"]) * 1.7
+    if base["cls"] == "Ellipse":
+        b["a"], b["b"] = float(base["b"]) * 1.7, float(base["a"]) * 0.6
+    if base["cls"] == "Ellipsoid":
+        b["a"], b["b"], b["c"] = float(base["c"]) * 1.7, float(base["a"]) * 0.6, \
+            float(base["b"]) * 1.3
+    return b
 
 
 VERTEX3D = ("ConvexPolyhedron", "Polyhedron", "ConvexSpheropolyhedron")
@@ -549,9 +587,13 @@ def gen_base(rng, cls, family=None, allow_scramble=False, allow_invalid_faces=Fa
         else:
             scr = False
         v, R, s, off = place3d(v0, rng, **place_kw)
-        return {"cls": cls, "family": fam, "vertices": tolist(v),
-                "faces": [list(map(int, f)) for f in faces], "faces_are_convex": fac,
-                "scrambled": scr}
+        out = {"cls": cls, "family": fam, "vertices": tolist(v),
+               "faces": [list(map(int, f)) for f in faces], "faces_are_convex": fac,
+               "scrambled": scr}
+        if rng.chance(0.3):
+            # the caller's index type: lists, or arrays of another integer type
+            out["face_dtype"] = rng.choice(["list", "int32", "uint64", "uint8"])
+        return out
     if cls in VERTEX2D:
         if cls == "Polygon":
             fams = sorted(POLY2D_CONVEX) + sorted(POLY2D_NONCONVEX)
